@@ -75,8 +75,15 @@ def recvWritesOK (t : List Access) (r : MethodRow) : Bool :=
 theorem c14_chain_table_recv_writes :
     Gozod.Gen.methodOps.all (recvWritesOK Gozod.Gen.LockSets.table) = true := by decide +kernel
 
-/-- non-vacuity: there are such rows -/
-example : (Gozod.Gen.methodOps.filter (fun r => !r.recvWrites.isEmpty)).length ≥ 1 := by decide +kernel
+/-- non-vacuity: the check is not trivially true — the rows `ZodLazy.Unwrap` / `Coerce` had before /repo 63e6816 (the cache
+    fill was an assignment inside once.Do; since then it is an atomic Store, which C08's translator does not list) pass
+    because the lock-set table has the location with synchronised writes, and a row writing its receiver anywhere else fails -/
+example : recvWritesOK Gozod.Gen.LockSets.table
+    ⟨"ZodLazy", "Unwrap", "ZodLazy", [⟨.access, 0, false, false, false, "", []⟩], [.onceMemo "internals.innerType"], false, false, [], []⟩ = true ∧
+  recvWritesOK Gozod.Gen.LockSets.table
+    ⟨"ZodBool", "Nilable", "ZodBool", [⟨.clone, 0, false, false, false, "", []⟩], [.write "SetNilable() on the receiver's internals"], false, false, [], []⟩ = false ∧
+  recvWritesOK Gozod.Gen.LockSets.table
+    ⟨"ZodX", "M", "ZodX", [⟨.access, 0, false, false, false, "", []⟩], [.onceMemo "internals.other"], false, false, [], []⟩ = false := by decide +kernel
 
 /-- **c14_registry_writes_locked**: the registry map is written only inside `core.mu` held in W mode, and every access to
     it holds that mutex — what `Describe` / `Meta` (rows with `regResult`) add for their RESULT is under the lock. -/
